@@ -103,7 +103,10 @@ static void *FK (int f) { return (void *)(uintptr_t)f; }
 static const pixman_format_code_t gfmts[] = { PIXMAN_a8, PIXMAN_a1, PIXMAN_a4, PIXMAN_a8r8g8b8, PIXMAN_x8r8g8b8, PIXMAN_a8b8g8r8,
 					      PIXMAN_b8g8r8a8, PIXMAN_r5g6b5, PIXMAN_a4r4g4b4, PIXMAN_a8r8g8b8_sRGB, PIXMAN_a2r10g10b10,
 					      PIXMAN_r8g8b8a8, PIXMAN_a1r5g5b5 };
-static const pixman_format_code_t mfmts[] = { PIXMAN_a8, PIXMAN_a1, PIXMAN_a4, PIXMAN_a8r8g8b8 };
+/* the first four are the usual ones; the rest are legal too and decide differently about component alpha */
+static const pixman_format_code_t mfmts[] = { PIXMAN_a8, PIXMAN_a1, PIXMAN_a4, PIXMAN_a8r8g8b8,
+					      PIXMAN_a8b8g8r8, PIXMAN_b8g8r8a8, PIXMAN_r8g8b8a8, PIXMAN_x8r8g8b8, PIXMAN_a4r4g4b4, PIXMAN_a1b5g5r5 };
+#define N_MFMTS ((int)(sizeof mfmts / sizeof mfmts[0]))
 
 static void
 fill_words (uint32_t *p, int n, uint64_t seed)
@@ -391,7 +394,7 @@ execute (const scenario_t *sc, const char *property, result_t *res)
 	    /* use_mask op maskfmt n (x y font glyph)* */
 	    int use_mask = (int)sim_mod (A (0), 2), n = (int)sim_clamp (A (3), 0, 10), k, ng = 0, frozen_here = 0;
 	    pixman_op_t pop = sim_ops[sim_mod (A (1), sim_n_ops)];
-	    pixman_format_code_t mf = mfmts[sim_mod (A (2), 4)];
+	    pixman_format_code_t mf = mfmts[sim_mod (A (2), N_MFMTS)];
 	    pixman_glyph_t g[10];
 	    int ex[10], gx[10], gy[10];
 	    if (depth == 0) { pixman_glyph_cache_freeze (cache); depth = 1; frozen_here = 1; }
@@ -523,7 +526,7 @@ generate (uint64_t seed, int tier, const char *property, scenario_t *sc)
 	    int n = 0, cnt = (int)rng_range (&r, 1, 8), k;
 	    a[n++] = rng_n (&r, 2);
 	    a[n++] = rng_chance (&r, 1, 2) ? (rng_chance (&r, 1, 2) ? 3 : 12) : (int64_t)rng_n (&r, sim_n_ops);
-	    a[n++] = rng_n (&r, 4); a[n++] = cnt;
+	    a[n++] = rng_chance (&r, 2, 3) ? rng_n (&r, 4) : rng_n (&r, N_MFMTS); a[n++] = cnt;
 	    for (k = 0; k < cnt; k++)
 	    {
 		a[n++] = rng_range (&r, 0, DW); a[n++] = rng_range (&r, 0, DH);
